@@ -371,7 +371,7 @@ Section C11.
     intros Hinv0 (Hs & Ht & Hr). pose proof (rsteps_preserve_inv _ _ Hinv0 Hs) as Hinv.
     unfold run_leaf. destruct (take_blob T hc (rs_table T st) [leaf]) as [b t'] eqn:Etb.
     assert (clock_ok teqb (rs_world T st)) as Hk by apply Hinv.
-    destruct (InvProofs.take_blob_ok T teqb hc _ _ _ _ _ Hk Ht Etb) as [Hb Ht'].
+    destruct (InvProofs.take_blob_ok T teqb hc teqb_spec _ _ _ _ _ Ht Etb) as [Hb Ht'].
     unfold handle_leaf. destruct (current_tickets teqb hc (rs_world T st) b) as [ts|p]; cbn.
     - split; [exact Hs|]. split; [exact Ht'|]. apply InvProofs.results_ok_app; [exact Hr|].
       apply InvProofs.results_ok_one_ok. exact Hb.
@@ -392,7 +392,7 @@ Section C11.
     intros Hinv0 (Hs & Ht & Hr). pose proof (rsteps_preserve_inv _ _ Hinv0 Hs) as Hinv.
     unfold run_node. destruct (take_blob T hc (rs_table T st) (n_targets n)) as [b t'] eqn:Etb.
     assert (clock_ok teqb (rs_world T st)) as Hk by apply Hinv.
-    destruct (InvProofs.take_blob_ok T teqb hc _ _ _ _ _ Hk Ht Etb) as [Hb Ht'].
+    destruct (InvProofs.take_blob_ok T teqb hc teqb_spec _ _ _ _ _ Ht Etb) as [Hb Ht'].
     destruct (read_history T teqb hr (rs_world T st) (n_rule n)) as [h|]; [|discriminate].
     destruct (all_some (map (received T (rs_leaf_sent T st) (rs_node_sent T st)) (n_source_indices n)))
       as [tickets|].
@@ -511,7 +511,7 @@ Section C11.
     - intro H. injection H as <- _. apply rsteps_refl.
     - destruct (take_blob T hc t (n_targets n)) as [b t'] eqn:Etb.
       assert (clock_ok teqb w) as Hk by apply Hinv.
-      destruct (InvProofs.take_blob_ok T teqb hc _ _ _ _ _ Hk Ht Etb) as [Hb Ht'].
+      destruct (InvProofs.take_blob_ok T teqb hc teqb_spec _ _ _ _ _ Ht Etb) as [Hb Ht'].
       destruct (clean_targets teqb hc w b) as [w1|e] eqn:Ec.
       + pose proof (clean_targets_rsteps _ _ _ Hinv Hb Ec) as Hs1. intro H.
         eapply rsteps_trans; [exact Hs1|]. eapply IH; [| |exact H].
